@@ -528,3 +528,64 @@ Proof.
       apply (Hfresh q p t a Hin Ha). apply Hh. exact Hq.
     + intros x Hx. apply in_map_iff in Hx. destruct Hx as [e [<- He]]. exists e. auto.
 Qed.
+
+(** ** backend faults and the recovery *)
+Theorem fault_forward_recovers : forall c s batch c', Inv c -> R c s -> valid_batch batch ->
+  start_forward_fault true c batch = (c', OErr EBackend) ->
+  Inv (unwind c' batch) /\ R (unwind c' batch) (spec_unwind (fst (Spec.spec_forward s batch)) batch).
+Proof.
+  intros c s batch c' HI HR Hvb H. unfold start_forward_fault in H.
+  destruct (start_forward_meta true c batch) as [c1 r] eqn:E.
+  destruct (forward_meta_out c batch HI Hvb) as [Hr|[f Hr]]; rewrite E in Hr; simpl in Hr; subst r.
+  - discriminate.
+  - injection H as <-. apply (unwind_after_forward c s batch c1 f HI HR Hvb E).
+Qed.
+
+Lemma Inv_set_shift : forall c b, Inv c -> Inv (set_shift c b).
+Proof. intros c b [A B C D E F]. constructor; assumption. Qed.
+
+Definition sset_shift (s : Spec.sstate) (b : bool) : Spec.sstate := Spec.mkS (Spec.s_cells s) (Spec.s_window s) (Spec.s_cap s) b.
+
+Lemma R_set_shift : forall c s b, R c s -> R (set_shift c b) (sset_shift s b).
+Proof. intros c s b [A [B [C D]]]. unfold R. simpl. auto. Qed.
+
+Lemma remove_max_set_shift : forall c q b b',
+  remove (set_shift c b') q b MaxInt32 = (set_shift (fst (remove c q b MaxInt32)) b', snd (remove c q b MaxInt32)).
+Proof.
+  intros. unfold remove. rewrite Z.eqb_refl. simpl.
+  destruct (rm_loop q b MaxInt32 0 0 (cells c) new_range) as [[cs r] er]. destruct er; [reflexivity|].
+  destruct ((fst r =? MaxInt) && (snd r =? 0)); reflexivity.
+Qed.
+
+Lemma sclear_set_shift : forall s q b, Spec.s_cells (sclear (sset_shift s b) q) = Spec.s_cells (sclear s q).
+Proof.
+  intros. unfold sclear, Spec.spec_remove. simpl. destruct (existsb _ (Spec.s_cells s)); [reflexivity|].
+  destruct (negb _); reflexivity.
+Qed.
+
+Lemma remove_no_backend : forall c q b e, snd (remove c q b e) <> OErr EBackend.
+Proof.
+  intros. unfold remove. destruct (rm_loop _ _ _ _ _ _ _) as [[? ?] []]; simpl; [discriminate|].
+  repeat match goal with |- context [if ?x then _ else _] => destruct x end; simpl; discriminate.
+Qed.
+
+Theorem fault_remove_recovers : forall c s q b e c', Inv c -> R c s -> 0 <= b <= e ->
+  remove_fault c q b e = (c', OErr EBackend) ->
+  snd (remove c' q 0 MaxInt32) = OOk /\ Inv (fst (remove c' q 0 MaxInt32)) /\ R (fst (remove c' q 0 MaxInt32)) (sclear s q).
+Proof.
+  intros c s q b e c' HI HR Hbe H. unfold remove_fault in H.
+  destruct (remove (set_shift c false) q b e) as [c1 r] eqn:E. injection H as <- Hr.
+  assert (Er : r = OErr ENotSupported).
+  { pose proof (remove_no_backend (set_shift c false) q b e) as Hn. rewrite E in Hn. simpl in Hn.
+    destruct r as [f|er| |bb|]; try discriminate. destruct er; try discriminate; [reflexivity|contradiction]. }
+  subst r.
+  destruct (remove_refines_err (set_shift c false) (sset_shift s false) q b e c1 ENotSupported
+              (Inv_set_shift c false HI) (R_set_shift c s false HR) Hbe E) as [_ [K1 [K2 K3]]].
+  rewrite remove_max_set_shift. simpl. split; [exact K1|]. split; [apply Inv_set_shift; exact K2|].
+  destruct K3 as [A [B [C D]]]. unfold R. simpl. rewrite sclear_set_shift in A.
+  destruct HR as [_ [HB [HC HD]]].
+  destruct (spec_remove_params s q 0 MaxInt32) as [P1 [P2 P3]].
+  destruct (spec_remove_params (sset_shift s false) q 0 MaxInt32) as [Q1 [Q2 Q3]].
+  unfold sclear in *. change Spec.MaxInt32 with MaxInt32 in *. rewrite P1, P2, P3. rewrite Q1 in B. rewrite Q2 in C. simpl in B, C.
+  split; [exact A|]. split; [exact B|]. split; [exact C|]. exact HD.
+Qed.
